@@ -9,7 +9,8 @@ Open Scope string_scope.
 
 Definition c18_skel : skeleton := mkSkeleton skel_funs skel_ifaces skel_slots skel_roots.
 Definition c18_prog : prog := prog_of c18_skel.
-Definition c18_may_acquire : list (N * list N) := may_acquire c18_prog.
+(* evaluated once, when this file is compiled against the regenerated skeleton *)
+Definition c18_may_acquire : list (N * list N) := Eval vm_compute in may_acquire c18_prog.
 Definition c18_edges : list (lock * lock) := lock_edges c18_prog (lookupL c18_may_acquire).
 Definition c18_ranks : list (N * nat) := ranks c18_edges.
 
